@@ -8,7 +8,24 @@ from pyvc import ufmode as U     # noqa
 from contracts import cli_helpers as K   # noqa
 
 
+def proof_mode():
+    """run the tier as checks/C17 will (no evidence / replay files written); exit 1 on violations"""
+    from checks import proofs_uf
+    ctx = core.Ctx('C17')
+    t0 = time.time()
+    proofs_uf.run_uf(ctx)
+    p = ctx.proof
+    print('functions {} obligations {} discharged {} by_backend {} unsupported {} undecided {} time {:.2f}s'.format(
+        len(p['functions']), p['obligations'], p['discharged'], p['by_backend'], len(p['unsupported']), len(p['undecided']),
+        time.time() - t0))
+    for v in ctx.violations:
+        print('VIOLATION key={} kind={}\n    {}'.format(v['key'], v['kind'], v['what'][:500]))
+    return 1 if ctx.violations else 0
+
+
 def main(argv):
+    if '--proof' in argv:
+        sys.exit(proof_mode())
     verbose = '-v' in argv
     only = [a for a in argv if not a.startswith('-')]
     src = U.Src(core.REPO)
